@@ -23,6 +23,8 @@ PLANTED = [
     ("nat-scopes", "int#a8509bda ? = Int;\nscope {n:#} a:# b:a*[c:# d:c*[int] e:n*[int]] f:# g:f.1?b:[int] = Scope n;\n"),
     ("func-result-var", "int#a8509bda ? = Int;\n---functions---\n@read f1 n:# x:n*[int] = Int;\n@write f0 = Int;\n@any f2 y:int = Int;\n"),
     ("reqresult", "int#a8509bda ? = Int;\nreqError#b527877d error_code:int = ReqResult X;\n"),
+    ("interleaved-unions", "int#a8509bda ? = Int;\nshapeCircle r:int = Shape;\npointT x:int = PointT;\nshapeSquare a:int = Shape;\n"
+     "---functions---\n@read getShape = Shape;\n---types---\ncolorRed = Color;\nshapeNone = Shape;\ncolorBlue = Color;\nboxT {t:Type} v:t = BoxT t;\n"),
     ("empty", ""),
     ("only-builtins", "int#a8509bda ? = Int;\nlong#22076cba ? = Long;\nstring#b5286e24 ? = String;\n"),
 ]
